@@ -217,17 +217,25 @@ def mk_app(f, args):
 
 
 def print_candidate(base, name, Tj, propj):
-    """Text of a candidate: the repo printer, in a copy of the theory where the new constant is declared."""
-    thy2 = copy.copy(base)
+    """Text of a candidate: the repo printer, in a copy of the theory where the new constant is declared (when the candidate uses
+    the name at a type that is not an instance of its own type: declared as an overloadable constant of type 'a, so that
+    the printer annotates the occurrences)."""
     Tt = decT(Tj)
-    if not thy2.has_term_sig(name):
-        thy2.add_term_sig(name, Tt)
-    theory.thy = thy2
-    try:
-        with global_setting(unicode=False, line_length=None, highlight=False):
-            return printer.print_type(Tt), printer.print_term(dec(propj))
-    finally:
-        theory.thy = base
+    for generic in (False, True):
+        thy2 = copy.copy(base)
+        if not thy2.has_term_sig(name):
+            thy2.add_term_sig(name, TVar("a") if generic else Tt)
+            if generic:
+                thy2.add_overload_const(name)
+        theory.thy = thy2
+        try:
+            with global_setting(unicode=False, line_length=None, highlight=False):
+                return printer.print_type(Tt), printer.print_term(dec(propj))
+        except Exception:
+            if generic:
+                raise
+        finally:
+            theory.thy = base
 
 
 def eq_prop(lhsj, rhsj):
@@ -263,7 +271,7 @@ def mode_defs(vec_path, out_path):
             continue
         v = json.loads(ln)
         offer_def(log, "vec", base, v["name"], v["T"], list(v["args"]), v["rhs"],
-                  extra={"sok": v["sok"], "cons": v["cons"], "exam": v["exam"], "newname": v["newname"]})
+                  extra={"sok": v["sok"], "cons": v["cons"], "exam": v["exam"], "newname": v["newname"], "wf": v["wf"]})
     log.close()
     print("defs events", log.tid, log.n)
 
@@ -370,7 +378,7 @@ def mode_rand(n, out_path, seed):
         if rnd.random() < 0.15:
             atoms += [["svar", "s", rnd.choice([B, NAT])]]
         rhs = gen(restT, rnd.randint(1, 4), [], atoms)
-        offer_def(log, "rand", base, name, T, args, rhs)
+        offer_def(log, "rand", base, name, T, args, rhs, extra={"idx": i})
     log.close()
     print("rand events", log.tid, log.n)
 
